@@ -147,6 +147,16 @@ namespace Track
   Sector sec;
   int sec_size;
   enum DecodeState state = DecodeState::LookingForAddress;
+  // The position just after the most recently accepted ID field.  The
+  // record (data) address mark belonging to that ID follows it after
+  // gap 2 (nominally 11 bytes of 0xFF and 6 sync bytes); a floppy
+  // controller gives up looking for it after about 30 bytes.  If we
+  // searched without limit, then when a sector's data mark is
+  // damaged we would find the data mark of a *later* sector and
+  // return that sector's data under this sector's address.
+  size_t id_end = 0;
+  constexpr size_t bits_per_fm_byte = 16;
+  constexpr size_t max_id_to_data_mark_bits = 64 * bits_per_fm_byte;
   while (thisbit < bits_avail)
     {
       if (state == DecodeState::LookingForAddress)
@@ -230,6 +240,7 @@ namespace Track
 	    }
 	  // id[5] and id[6] are the CRC bytes, and these already got
 	  // included in our evaluation of addr_crc.
+	  id_end = thisbit;
 	  state = DecodeState::LookingForRecord;
 	}
       else if (state == DecodeState::LookingForRecord)
@@ -237,6 +248,21 @@ namespace Track
 	  std::optional<unsigned int> found = find_record_address_mark();
 	  if (!found)
 	    break;
+	  if (thisbit - id_end > max_id_to_data_mark_bits)
+	    {
+	      // This mark is too far from the ID field to belong to it.
+	      // Forget the ID and resume the search for an ID field
+	      // from just after it, so that we don't skip the ID
+	      // which this mark does belong to.
+	      if (verbose)
+		{
+		  std::cerr << "No data mark found soon enough after the ID field for "
+			    << sec.address << "; dropping that sector\n";
+		}
+	      thisbit = id_end;
+	      state = DecodeState::LookingForAddress;
+	      continue;
+	    }
 	  const bool discard_record = *found == 0xF56A;
 	  if (verbose)
 	    {
